@@ -27,8 +27,11 @@ def run(c, a):
         "delivered by calling shardDelegate.NotifyMsg / MergeRemoteState / NotifyLeave directly",
         "every run is completed to quiescence (each announcement reaches every peer it was addressed to at least once)",
     ]
-    for cfg, tmo in prof["design"]:
-        r = c.tlc("Gossip", "Gossip", cfg, workers=12, timeout=tmo, name="design-" + cfg[:-4])
+    from concurrent.futures import ThreadPoolExecutor
+    with ThreadPoolExecutor(max_workers=4) as ex:       # a timeout under load is exit 2, not a verdict: generous bounds
+        dres = list(ex.map(lambda j: c.tlc("Gossip", "Gossip", j[0], workers=4, timeout=max(j[1], 1500), name="design-" + j[0][:-4]),
+                           prof["design"]))
+    for (cfg, tmo), r in zip(prof["design"], dres):
         if r.violated:
             c.notes.append("design-level counterexample in %s: %s" % (cfg, r.violated))
         elif not r.ok:
